@@ -269,7 +269,24 @@ func TestC17(t *testing.T) {
 		kind := rapid.SampledFrom(poolKinds).Draw(rt, "pool")
 		size := rapid.IntRange(0, 8).Draw(rt, "size")
 		withMaps := rapid.IntRange(0, 3).Draw(rt, "builtWithMaps") != 0
+		// a sibling: another pool of the same kind built EARLIER for the very same maps, with room for more
+		// objects. What is returned to one pool is none of the other's business.
+		var sibling hessian.Pool
 		pool, tm, nm := newPool(kind, size, withMaps)
+		if withMaps && rapid.Bool().Draw(rt, "withSibling") {
+			switch kind {
+			case "EncoderPool":
+				sibling = hessian.NewEncoderPool(size+3, nm)
+				pool = hessian.NewEncoderPool(size, nm)
+			case "DecoderPool":
+				sibling = hessian.NewDecoderPool(size+3, tm)
+				pool = hessian.NewDecoderPool(size, tm)
+			default:
+				sibling = hessian.NewSerializerPool(size+3, tm, nm)
+				pool = hessian.NewSerializerPool(size, tm, nm)
+			}
+		}
+		foreign := map[uintptr]interface{}{} // objects that went through the sibling pool
 		c.set("pool", kind)
 		c.set("size", size)
 		c.set("builtWithMaps", withMaps)
@@ -293,6 +310,10 @@ func TestC17(t *testing.T) {
 			if _, dup := held[id]; dup {
 				c.set("history", hist)
 				failf(rt, c, "C17 %s(size %d): Get handed out an object that is still held by another caller; history %v", kind, size, hist)
+			}
+			if foreign[id] != nil {
+				c.set("history", hist)
+				failf(rt, c, "C17 %s(size %d): Get handed out an object that was obtained from and returned to ANOTHER pool built for the same maps; history %v", kind, size, hist)
 			}
 			switch {
 			case idle[id]:
@@ -359,6 +380,25 @@ func TestC17(t *testing.T) {
 				}
 				hist = append(hist, "use")
 			},
+			"sibling": func(*rapid.T) {
+				if sibling == nil {
+					rt.Skip("no sibling pool")
+				}
+				n := rapid.IntRange(1, size+3).Draw(rt, "siblingObjects")
+				objs := make([]interface{}, n)
+				for i := range objs {
+					objs[i] = sibling.Get()
+					id := objID(objs[i])
+					if _, isHeld := held[id]; isHeld || idle[id] {
+						failf(rt, c, "C17 %s(size %d): a sibling pool built for the same maps handed out an object of this pool; history %v", kind, size, hist)
+					}
+					foreign[id] = objs[i]
+				}
+				for _, o := range objs {
+					sibling.Return(o)
+				}
+				hist = append(hist, fmt.Sprintf("sibling:get+return x%d", n))
+			},
 			"register": func(*rapid.T) {
 				// a holder registers entries on the object it holds; the pool was built without maps, so the
 				// object's maps are its own and no other object may learn of it
@@ -384,6 +424,9 @@ func TestC17(t *testing.T) {
 			if _, dup := held[id]; dup {
 				failf(rt, c, "C17 %s(size %d): drain got an object that is still held; history %v", kind, size, hist)
 			}
+			if foreign[id] != nil {
+				failf(rt, c, "C17 %s(size %d): drain got an object that was returned to ANOTHER pool built for the same maps; history %v", kind, size, hist)
+			}
 			held[id] = o
 			if idle[id] {
 				delete(idle, id)
@@ -405,6 +448,9 @@ func TestC17(t *testing.T) {
 		}
 		if len(custom) > 0 {
 			r.Label("a holder registered on its object")
+		}
+		if sibling != nil {
+			r.Label("a sibling pool built for the same maps")
 		}
 		if returnOnFull || getOnEmpty {
 			r.NonTrivial(av.Hash(kind + fmt.Sprint(size, hist)))
